@@ -517,7 +517,7 @@ class MailboxSet(MailboxSetInterface[MailboxData]):
         try:
             self._layout.add_folder(name, self.delimiter)
         except FileExistsError as exc:
-            raise KeyError(name) from exc
+            raise ValueError(name) from exc
         path = self._layout.get_path(name, self.delimiter)
         async with UidList.with_init(path) as uidl:
             global_uid = uidl.global_uid
@@ -537,4 +537,14 @@ class MailboxSet(MailboxSetInterface[MailboxData]):
         if before == 'INBOX':
             raise NotSupportedError()  # TODO
         else:
+            try:
+                self._layout.get_folder(before, self.delimiter)
+            except (FileNotFoundError, ValueError) as exc:
+                raise KeyError(before) from exc
+            try:
+                self._layout.get_folder(after, self.delimiter)
+            except FileNotFoundError:
+                pass
+            else:
+                raise ValueError(after)
             self._layout.rename_folder(before, after, self.delimiter)
